@@ -119,7 +119,11 @@ Exit ==
                  ELSE {}
          wrongcode == IF (Ev.code = 0) # sc.expectok /\ ~sc.injected
                       THEN {V("C16.exit", ToString(Ev.code))} ELSE {}
-     IN Step(files, dirs, fail \cup succ \cup wrongcode)
+         (* a run that follows a crashed one, on an installation that can succeed, must itself succeed: whatever the
+            crash left behind must not be in its way *)
+         rerunfail == IF sc.rerun /\ sc.expectok /\ Ev.code # 0
+                      THEN {V("C15.rerun", "the run after a crash failed: " \o Ev.stderr)} ELSE {}
+     IN Step(files, dirs, fail \cup succ \cup wrongcode \cup rerunfail)
 
 Killed ==
   /\ l <= Len(Trace) /\ Ev.ev = "Killed"
